@@ -417,7 +417,15 @@ pub fn h_orswot_dup(inp: &Inp) -> u8 {
 /// NM+1 = the pending-remove table. All slices equal <=> `==` (derived, field-wise).
 fn slice_eq(x: &Set, y: &Set, v: u8) -> bool {
     if v == 0 {
-        x.clock == y.clock && x.entries.len() == y.entries.len() && x.deferred.len() == y.deferred.len()
+        // clock, and no member outside the universe (with the per-member slices this gives equal member
+        // tables; the pending table including its size is the last slice)
+        let mut foreign = false;
+        for (m, _) in x.entries.iter() {
+            if *m >= NM {
+                foreign = true;
+            }
+        }
+        x.clock == y.clock && !foreign
     } else if v <= NM {
         x.entries.get(&(v - 1)) == y.entries.get(&(v - 1))
     } else {
